@@ -438,7 +438,9 @@ def cli_strategy(draw: Any) -> dict:
                "name": draw(st.sampled_from(["vcli", "python_settings", "prod", "hypercorn_conf",
                                              "tuning", "live", "file_conf", "etc/e", "yaml"])),
                "relative": draw(st.booleans())}
-    return {"opts": opts, "config": cfg, "app_first": draw(st.booleans())}
+    return {"opts": opts, "config": cfg, "app_first": draw(st.booleans()),
+            "app_name": draw(st.sampled_from(["asgi:app", "asgi:app", "pkg.module:application",
+                                              "wsgi:pkg.mod:app", "module"]))}
 
 
 def _run_main(argv: List[str]) -> Any:
@@ -506,7 +508,7 @@ def run_cli(case: dict) -> CaseInfo:
             for o in case["opts"]:
                 attr, kind = FLAGS[o["flag"]]
                 argv_flags += _argv_for(o["flag"], kind, o["value"], o["eq"])
-            app = ["asgi:app"]
+            app = [case.get("app_name", "asgi:app")]
             if case.get("app_first"):
                 full = app + base + argv_flags
                 basev = app + base
@@ -521,6 +523,12 @@ def run_cli(case: dict) -> CaseInfo:
             if tmp in sys.path:
                 sys.path.remove(tmp)
             sys.modules.pop(modname, None)
+        # the positional argument is the application
+        for snap_, argv_ in ((baseline, basev), (got, full)):
+            have = snap_.get("application_path", snap_.get("inst:application_path"))
+            if have != app[0]:
+                raise Violation("application_path_lost", f"argv={argv_}: application_path "
+                                f"{have!r}, given {app[0]!r}", attr="application_path")
         # the config file itself must have taken effect in the baseline
         for k, v in file_values.items():
             want = [v] if k in ("bind", "insecure_bind", "quic_bind") and isinstance(v, str) else v
